@@ -261,6 +261,21 @@ def body_sync(S, t, part):
     t.advance_time_and_run(u1)
     b = sc.replace_or_advance_show(a, cfgB, None)
     t.advance_time_and_run(u2 - u1)
+    if part.get("abort"):
+        # the pending replacement is paused and then stopped before the sync point: the show it was to replace goes with it
+        if part["abort"] == "pause_stop":
+            b.pause()
+        b.stop()
+        t.advance_time_and_run(nxt - t.loop.time() + period)
+        left = _show_keys(m, a.context) + _show_keys(m, b.context)
+        if not a.stopped or left or "A" not in stopped_at:
+            raise Violation("nothing-of-the-show-left-behind", "RunningShow.stop", "replacement stopped before its sync point: replaced show stopped=%s (stopped event %s), light entries left %s" % (
+                a.stopped, "A" in stopped_at, left))
+        if "B" in started_at:
+            raise Violation("no-step-after-stop-or-completion", "RunningShow._start_play", "a replacement that was stopped before its sync point started anyway")
+        S.note("nontrivial", True)
+        S.note("third", "abort")
+        return
     c = sc.replace_or_advance_show(b, cfgC, None) if part["third"] else b
     # just before the sync point the running show must still be up
     if a.stopped or "A" in stopped_at:
@@ -334,7 +349,8 @@ def scenarios(tier):
     if tier != "quick":
         parts += [dict(control=c, loops=None, start_step="sym") for c in ("stop", "pause_resume", "advance", "step_back")]
     pb = 80 if tier == "quick" else 400
-    sparts = [dict(sync_ms=500, third=True), dict(sync_ms=500, third=False), dict(sync_ms=250, third=True)]
+    sparts = [dict(sync_ms=500, third=True), dict(sync_ms=500, third=False), dict(sync_ms=250, third=True),
+              dict(sync_ms=500, third=False, abort="pause_stop"), dict(sync_ms=500, third=False, abort="stop")]
     return [Scenario("schedule", setup, body, parts, teardown=teardown, part_budget=pb, per_path_timeout=60),
             Scenario("sync", setup, body_sync, sparts, teardown=teardown, part_budget=pb, per_path_timeout=60),
             Scenario("show_player", setup, body_player, [dict(plays=2 if tier == "quick" else 4)], teardown=teardown, part_budget=pb, per_path_timeout=60)]
